@@ -17,6 +17,7 @@ import (
 	"os"
 	"os/exec"
 	"regexp"
+	"runtime"
 	"strconv"
 	"strings"
 	"sync"
@@ -609,6 +610,12 @@ func runWorkers(count, first, j int, tier string, extra []string) []byte {
 				if strings.Contains(se.String(), "nil pointer dereference") {
 					why = "died-nil-deref"
 				}
+				if strings.Contains(se.String(), "watchdog:") {
+					why = "hang"
+					if os.Getenv("VERIF_DUMP") != "" {
+						fmt.Fprintln(os.Stderr, se.String())
+					}
+				}
 				fmt.Fprintf(&buf, "F died %s\nE\n", why)
 				lo = last + 1
 			}
@@ -661,7 +668,18 @@ func main() {
 		seed := rng.Seed()
 		w := bufio.NewWriter(os.Stdout)
 		for i := 0; i < *count; i++ {
+			done := make(chan struct{})
+			go func(n int) {
+				select {
+				case <-done:
+				case <-time.After(90 * time.Second):
+					buf := make([]byte, 1<<20)
+					fmt.Fprintf(os.Stderr, "watchdog: history %d hangs\n%s\n", n, buf[:runtime.Stack(buf, true)])
+					os.Exit(3)
+				}
+			}(*first + i)
 			runOne(seed, *first+i, w, *tier)
+			close(done)
 			w.Flush()
 		}
 		var sb strings.Builder
